@@ -436,6 +436,12 @@ class ArmAssembler(BaseAssembler):
             lambda rhs: LdrPseudo(rhs[1], rhs[4].val, self.add_literal),
         )
 
+    def prepare(self):
+        super().prepare()
+        # Drop literals left behind by an assembly run which was aborted by
+        # an error. They would end up in the next object otherwise.
+        self.lit_pool = []
+
     def flush(self):
         assert not self.in_macro
         while self.lit_pool:
